@@ -1,7 +1,396 @@
-import GIV.Model.Cache
+/-
+  C13 — Trim removes only stale entries and only when a trim is due.
+
+  Model: `trim`, `used` and the lookups of GIV.Model.Cache; times are integers of nanoseconds.
+  `hour`, `day` below are the *statement's* numbers (one hour of timestamp granularity, one day between trims,
+  five days of retention); theorem `durations` proves them equal to the constants regenerated from cache.go.
+-/
+import GIV.Lemmas.CacheTrim
+import GIV.Lemmas.CacheOps
+import GIV.Lemmas.CacheWitness
+
 namespace GIV.C13
 open GIV GIV.Cache
 
-theorem trimLimit_eq : Gen.Cache.trimLimit = 5 * 24 * 3600 * 1000000000 := by decide
+def second : Int := 1000000000
+def hour : Int := 3600 * second
+def day : Int := 24 * hour
+
+/-- the file holding the time of the last completed trim. -/
+def trimTxt : Bytes := [116, 114, 105, 109, 46, 116, 120, 116]   -- "trim.txt"
+
+/-- The numbers of the statement are the numbers of the code. -/
+theorem durations : Gen.Cache.mtimeInterval = hour ∧ Gen.Cache.trimInterval = day ∧ Gen.Cache.trimLimit = 5 * day ∧
+    Gen.Cache.trimFile = trimTxt ∧ Gen.Cache.trimSubdirs = 256 ∧ Gen.Cache.parseBase = 10 ∧ Gen.Cache.parseBits = 64 := by
+  decide
+
+/-- `cutoff` is "now minus five days minus one hour". -/
+theorem cutoff_eq (now : Int) : Gen.Cache.cutoff now = now - 5 * day - hour := by
+  have h1 : Gen.Cache.trimLimit = 5 * day := durations.2.2.1
+  have h2 : Gen.Cache.mtimeInterval = hour := durations.1
+  simp only [Gen.Cache.cutoff, h1, h2]; omega
+
+example : Gen.Cache.cutoff (6 * day) = 19 * hour + 4 * hour := by decide
+
+/-! ### when a trim is due -/
+
+/-- `trim.txt` holds the Unix time `t` of the last trim (surrounding white space allowed). -/
+def lastTrimIs (fs : FS) (t : Int) : Prop :=
+  ∃ f, fs.get trimTxt = some f ∧ parseInt 10 64 (trimSpace f.data) = some t
+
+theorem trimNotDue_of_record (fs : FS) (now t : Int) (hn0 : 0 ≤ now) (hn1 : now < 2 ^ 63)
+    (hrec : lastTrimIs fs t) (h1 : -hour < now - t * second) (h2 : now - t * second < day) :
+    trimNotDue fs now = true := by
+  obtain ⟨f, hf, hp⟩ := hrec
+  have hsmall0 : -(2 ^ 62) ≤ t := by simp only [hour, day, second] at *; omega
+  have hsmall1 : t < 2 ^ 62 := by simp only [hour, day, second] at *; omega
+  have hlt : lastTrim? fs = some (t * second) := by
+    simp only [lastTrim?, durations.2.2.2.1, hf, durations.2.2.2.2.2.1, durations.2.2.2.2.2.2, hp]
+    rw [timeUnixSec_small t hsmall0 hsmall1]; rfl
+  have hd : durSub now (t * second) = now - t * second :=
+    durSub_exact _ _ (by simp only [hour, day, second] at *; omega) (by simp only [hour, day, second] at *; omega)
+  simp only [trimNotDue, hlt, hd, Gen.Cache.trimNotDue, durations.1, durations.2.1, Bool.and_eq_true, decide_eq_true_eq]
+  exact ⟨h2, by omega⟩
+
+/-- If a trim completed less than a day ago (and not more than an hour in the future), Trim does nothing at all:
+no file is removed or touched, `trim.txt` included. -/
+theorem trim_not_due (fs : FS) (now t : Int) (hn0 : 0 ≤ now) (hn1 : now < 2 ^ 63)
+    (hrec : lastTrimIs fs t) (h1 : -hour < now - t * second) (h2 : now - t * second < day) :
+    trim fs now = fs := by
+  simp [trim, trimNotDue_of_record fs now t hn0 hn1 hrec h1 h2]
+
+/-- a directory whose last trim was 23 hours before `now = 10 days`. -/
+def exRecent : FS := FS.empty.set trimTxt ⟨[32, 55, 56, 49, 50, 48, 48, 10], 0⟩   -- " 781200\n" = 10 d − 23 h, in seconds
+
+example : trim exRecent (10 * day) = exRecent :=
+  trim_not_due exRecent (10 * day) 781200 (by decide) (by decide)
+    ⟨_, FS.get_set_self _ _ _, by decide⟩ (by decide) (by decide)
+
+/-- what a due trim does: the sweep with cutoff `now − 5 d − 1 h`, then the record. -/
+def dueResult (fs : FS) (now : Int) : FS :=
+  (trimSweep fs (now - 5 * day - hour)).set trimTxt ⟨decimal (now / second).toNat, now⟩
+
+theorem trim_of_due (fs : FS) (now : Int) (hn0 : 0 ≤ now) (h : trimNotDue fs now = false) : trim fs now = dueResult fs now := by
+  have hu : 0 ≤ unixOf now := by
+    unfold unixOf; rw [show Gen.Cache.second = 1000000000 by decide]; omega
+  have hrec : trimRecord now = decimal (now / second).toNat := by
+    rw [trimRecord_eq, fmtInt_nonneg _ hu]; rfl
+  simp [trim, h, dueResult, cutoff_eq, durations.2.2.2.1, hrec]
+
+/-- In every other case the trim is due — `trim.txt` missing, unparseable, a day or more old, an hour or more in the
+future — and then the sweep runs and the Unix time `now` is recorded.
+(The old / future cases are stated for `|t| < 2^62`; beyond that `time.Unix` wraps, which the model follows but the
+statement does not describe.) -/
+theorem trim_due_otherwise (fs : FS) (now : Int) (hn0 : 0 ≤ now)
+    (hdue : fs.get trimTxt = none ∨
+      (∃ f, fs.get trimTxt = some f ∧ parseInt 10 64 (trimSpace f.data) = none) ∨
+      (∃ t, lastTrimIs fs t ∧ -(2 ^ 62) ≤ t ∧ t < 2 ^ 62 ∧ (day ≤ now - t * second ∨ now - t * second ≤ -hour))) :
+    trim fs now = dueResult fs now ∧
+    (trim fs now).get trimTxt = some ⟨decimal (now / second).toNat, now⟩ := by
+  have hnd : trimNotDue fs now = false := by
+    rcases hdue with h | ⟨f, hf, hp⟩ | ⟨t, ⟨f, hf, hp⟩, ht0, ht1, hd⟩
+    · simp [trimNotDue, lastTrim?, durations.2.2.2.1, h]
+    · simp [trimNotDue, lastTrim?, durations.2.2.2.1, hf, durations.2.2.2.2.2.1, durations.2.2.2.2.2.2, hp]
+    · have hlt : lastTrim? fs = some (t * second) := by
+        simp only [lastTrim?, durations.2.2.2.1, hf, durations.2.2.2.2.2.1, durations.2.2.2.2.2.2, hp]
+        rw [timeUnixSec_small t ht0 ht1]; rfl
+      simp only [trimNotDue, hlt, Gen.Cache.trimNotDue, durations.1, durations.2.1, Bool.and_eq_false_iff,
+        decide_eq_false_iff_not]
+      -- the saturated difference is on the same side of the two thresholds as the exact one
+      rw [durSub_lt_iff _ _ day (by decide) (by decide), durSub_gt_iff _ _ (-hour) (by decide) (by decide)]
+      omega
+  have := trim_of_due fs now hn0 hnd
+  exact ⟨this, by rw [this, dueResult, FS.get_set_self]⟩
+
+example : (trim FS.empty (10 * day)).get trimTxt = some ⟨[56, 54, 52, 48, 48, 48], 10 * day⟩ := by
+  have := (trim_due_otherwise FS.empty (10 * day) (by decide) (Or.inl rfl)).2
+  rw [this]
+  have : decimal (10 * day / second).toNat = [56, 54, 52, 48, 48, 48] := by
+    have : (10 * day / second).toNat = 864000 := by decide
+    rw [this]; simp [decimal]
+  rw [this]
+
+/-! ### mtimes are refreshed by use -/
+
+/-- After `used(file)` at time `u` the file's mtime is less than an hour behind `u`. -/
+theorem used_bound (fs : FS) (u : Int) (file : Bytes) (f : File) (h : (used fs u file).get file = some f) :
+    u - f.mtime < hour := by
+  rw [get_used_self] at h
+  cases hg : fs.get file with
+  | none => rw [hg] at h; cases h
+  | some g =>
+    rw [hg] at h
+    simp only [Option.map_some, Option.some.injEq] at h
+    split at h
+    · rename_i hfresh
+      subst h
+      simp only [Gen.Cache.usedFresh, durations.1, Bool.true_and, decide_eq_true_eq] at hfresh
+      exact (durSub_lt_iff _ _ hour (by decide) (by decide)).mp hfresh
+    · subst h; simp [hour, second]
+
+example : ∃ f, (used (FS.empty.set [1] ⟨[], 0⟩) (2 * hour) [1]).get [1] = some f ∧ 2 * hour - f.mtime < hour := by
+  cases h : (used (FS.empty.set [1] ⟨[], 0⟩) (2 * hour) [1]).get [1] with
+  | none =>
+    rw [get_used_self, FS.get_set_self] at h; simp at h
+  | some f => exact ⟨f, rfl, used_bound _ _ _ _ h⟩
+
+theorem fileName_ne_trimTxt (id : Hash) (key : Bytes) : fileName id key ≠ trimTxt := by
+  rw [← durations.2.2.2.1]; exact fileName_ne_trimFile _ _
+
+/-- A successful `Get` at time `u` leaves the index file with an mtime less than an hour behind `u`. -/
+theorem get_refreshes (fs : FS) (u : Int) (id : Hash) (e : Entry) (fs' : FS) (h : get fs u id = (.ok e, fs')) :
+    ∃ f, fs'.get (fileName id keyA) = some f ∧ u - f.mtime < hour := by
+  unfold Cache.get at h
+  split at h
+  · cases h
+  · rename_i f0 hf0
+    split at h
+    · cases h
+    · simp only [show Gen.Cache.getUsesIndexFile = true by decide, if_true, Prod.mk.injEq] at h
+      obtain ⟨_, hfs⟩ := h
+      subst hfs
+      cases hg : (used fs u (fileName id keyA)).get (fileName id keyA) with
+      | none => rw [get_used_self, hf0] at hg; simp at hg
+      | some f => exact ⟨f, rfl, used_bound _ _ _ _ hg⟩
+
+example : ∃ e fs', Cache.get exFS (10 * day) id1 = (.ok e, fs') ∧
+    ∃ f, fs'.get (fileName id1 keyA) = some f ∧ 10 * day - f.mtime < hour := by
+  obtain ⟨t, ht⟩ := exFS_stored.get (10 * day)
+  cases h : Cache.get exFS (10 * day) id1 with
+  | mk r fs' => rw [h] at ht; simp only at ht; subst ht; exact ⟨_, fs', rfl, get_refreshes _ _ _ _ _ h⟩
+
+/-- `OutputFile(out)` (hence GetFile and GetBytes) does the same for the data file, if it exists. -/
+theorem outputFile_refreshes (fs : FS) (u : Int) (out : Hash) (f : File)
+    (h : (outputFile fs u out).2.get (fileName out keyD) = some f) : u - f.mtime < hour :=
+  used_bound _ _ _ _ h
+
+example : ∃ f, (outputFile exFS (10 * day) (toyH [65])).2.get (fileName (toyH [65]) keyD) = some f ∧ 10 * day - f.mtime < hour := by
+  cases h : (outputFile exFS (10 * day) (toyH [65])).2.get (fileName (toyH [65]) keyD) with
+  | none =>
+    have := outputFile_sameData exFS (10 * day) (toyH [65]) (fileName (toyH [65]) keyD)
+    rw [exFS_stored.2.1] at this
+    simp [dataOf, h] at this
+  | some f => exact ⟨f, rfl, outputFile_refreshes _ _ _ _ h⟩
+
+/-! ### what Trim keeps and removes -/
+
+/-- Trim never changes a file it keeps, and apart from `trim.txt` never creates one. -/
+theorem trim_never_modifies (fs : FS) (now : Int) (hn0 : 0 ≤ now) (p : Bytes) (hp : p ≠ trimTxt) :
+    (trim fs now).get p = none ∨ (trim fs now).get p = fs.get p := by
+  cases hd : trimNotDue fs now with
+  | true => right; simp [trim, hd]
+  | false =>
+    rw [trim_of_due fs now hn0 hd, dueResult, FS.get_set_ne _ _ _ _ hp, trimSweep_get]
+    by_cases hc : sweepCandidate p ∧ stale (now - 5 * day - hour) (fs.get p) = true
+    · left; exact keepUnless_pos hc _
+    · right; exact keepUnless_neg hc _
+
+/-- Trim never removes a file whose mtime is at most five days and one hour old. -/
+theorem trim_keeps_recent (fs : FS) (now : Int) (hn0 : 0 ≤ now) (p : Bytes) (f : File) (hp : p ≠ trimTxt)
+    (hf : fs.get p = some f) (hrecent : now - 5 * day - hour ≤ f.mtime) : (trim fs now).get p = some f := by
+  cases hd : trimNotDue fs now with
+  | true => simp [trim, hd, hf]
+  | false =>
+    rw [trim_of_due fs now hn0 hd, dueResult, FS.get_set_ne _ _ _ _ hp, trimSweep_get, keepUnless_neg, hf]
+    rintro ⟨_, hs⟩
+    rw [hf, stale_some_iff] at hs
+    omega
+
+example : (trim (FS.empty.set [97, 98, 47, 120, 45, 97] ⟨[1], 5 * day⟩) (10 * day)).get [97, 98, 47, 120, 45, 97] = some ⟨[1], 5 * day⟩ :=
+  trim_keeps_recent _ _ (by decide) _ _ (by decide) (FS.get_set_self _ _ _) (by decide)
+
+/-- A file used (by `used`, i.e. by any lookup that touches it) at time `u` survives every Trim up to five days later. -/
+theorem lookup_survives (fs : FS) (u now : Int) (hn0 : 0 ≤ now) (p : Bytes) (f : File) (hp : p ≠ trimTxt)
+    (hf : (used fs u p).get p = some f) (hwithin : now - u ≤ 5 * day) :
+    (trim (used fs u p) now).get p = some f := by
+  have := used_bound fs u p f hf
+  exact trim_keeps_recent _ now hn0 p f hp hf (by omega)
+
+example : ∃ f, (used (FS.empty.set [1] ⟨[], 0⟩) (10 * day) [1]).get [1] = some f ∧
+    (trim (used (FS.empty.set [1] ⟨[], 0⟩) (10 * day) [1]) (15 * day)).get [1] = some f := by
+  cases h : (used (FS.empty.set [1] ⟨[], 0⟩) (10 * day) [1]).get [1] with
+  | none => rw [get_used_self, FS.get_set_self] at h; simp at h
+  | some f => exact ⟨f, rfl, lookup_survives _ _ _ (by decide) _ f (by decide) h (by decide)⟩
+
+/-- … for the operations: after a successful `Get` at `u` the index entry survives a Trim at `now ≤ u + 5 d`;
+after `OutputFile` / `GetFile` / `GetBytes` so does the data file (the state `fs'` is the one the operation returned). -/
+theorem get_survives (fs : FS) (u now : Int) (hn0 : 0 ≤ now) (id : Hash) (e : Entry) (fs' : FS)
+    (h : get fs u id = (.ok e, fs')) (hwithin : now - u ≤ 5 * day) :
+    (trim fs' now).get (fileName id keyA) = fs'.get (fileName id keyA) ∧ (fs'.get (fileName id keyA)).isSome = true := by
+  obtain ⟨f, hf, hb⟩ := get_refreshes fs u id e fs' h
+  rw [hf, trim_keeps_recent fs' now hn0 _ f (by rw [← durations.2.2.2.1]; exact fileName_ne_trimFile _ _) hf (by omega)]
+  exact ⟨rfl, rfl⟩
+
+theorem outputFile_survives (fs : FS) (u now : Int) (hn0 : 0 ≤ now) (out : Hash) (hwithin : now - u ≤ 5 * day) :
+    (trim (outputFile fs u out).2 now).get (fileName out keyD) = (outputFile fs u out).2.get (fileName out keyD) := by
+  cases hg : (outputFile fs u out).2.get (fileName out keyD) with
+  | none =>
+    rcases trim_never_modifies (outputFile fs u out).2 now hn0 (fileName out keyD)
+      (by rw [← durations.2.2.2.1]; exact fileName_ne_trimFile _ _) with h | h
+    · exact h
+    · rw [h, hg]
+  | some f =>
+    have hb := outputFile_refreshes fs u out f hg
+    exact trim_keeps_recent _ now hn0 _ f (by rw [← durations.2.2.2.1]; exact fileName_ne_trimFile _ _) hg (by omega)
+
+example : ∃ e fs', Cache.get exFS (10 * day) id1 = (.ok e, fs') ∧
+    (trim fs' (15 * day)).get (fileName id1 keyA) = fs'.get (fileName id1 keyA) := by
+  obtain ⟨t, ht⟩ := exFS_stored.get (10 * day)
+  cases h : Cache.get exFS (10 * day) id1 with
+  | mk r fs' =>
+    rw [h] at ht; simp only at ht; subst ht
+    exact ⟨_, fs', rfl, (get_survives exFS (10 * day) (15 * day) (by decide) id1 _ fs' h (by decide)).1⟩
+
+example : (trim (outputFile exFS (10 * day) (toyH [65])).2 (15 * day)).get (fileName (toyH [65]) keyD) =
+    (outputFile exFS (10 * day) (toyH [65])).2.get (fileName (toyH [65]) keyD) :=
+  outputFile_survives exFS (10 * day) (15 * day) (by decide) (toyH [65]) (by decide)
+
+/-- A successful `GetBytes` / `GetFile` at time `u` protects the index entry and the output file it read:
+both are untouched by every Trim at `now ≤ u + 5 d` (`fs'` is the state the lookup returned). -/
+theorem getBytes_survives (H : Bytes → Hash) (fs : FS) (u now : Int) (hn0 : 0 ≤ now) (id : Hash) (d : Bytes) (e : Entry) (fs' : FS)
+    (h : getBytes H fs u id = (.ok (d, e), fs')) (hwithin : now - u ≤ 5 * day) :
+    (trim fs' now).get (fileName id keyA) = fs'.get (fileName id keyA) ∧ (fs'.get (fileName id keyA)).isSome = true ∧
+    (trim fs' now).get (fileName e.out keyD) = fs'.get (fileName e.out keyD) := by
+  unfold getBytes at h
+  split at h
+  · cases h
+  · rename_i e0 fs1 hg
+    simp only [] at h
+    obtain ⟨_, hv, hfs⟩ := ite_error_ok h
+    simp only [Prod.mk.injEq] at hv
+    obtain ⟨_, he⟩ := hv
+    subst he hfs
+    obtain ⟨f, hf, hb⟩ := get_refreshes fs u id e0 fs1 hg
+    have hidx : (outputFile fs1 u e0.out).2.get (fileName id keyA) = some f := by
+      rw [outputFile]; simp only []; rw [get_used_ne _ _ _ _ (fileName_a_ne_d _ _)]; exact hf
+    refine ⟨?_, by rw [hidx]; rfl, outputFile_survives fs1 u now hn0 e0.out hwithin⟩
+    rw [hidx]
+    exact trim_keeps_recent _ now hn0 _ f (fileName_ne_trimTxt _ _) hidx (by omega)
+
+theorem getFile_survives (fs : FS) (u now : Int) (hn0 : 0 ≤ now) (id : Hash) (file : Bytes) (e : Entry) (fs' : FS)
+    (h : getFile fs u id = (.ok (file, e), fs')) (hwithin : now - u ≤ 5 * day) :
+    (trim fs' now).get (fileName id keyA) = fs'.get (fileName id keyA) ∧ (fs'.get (fileName id keyA)).isSome = true ∧
+    (trim fs' now).get file = fs'.get file ∧ (fs'.get file).isSome = true := by
+  unfold getFile at h
+  split at h
+  · cases h
+  · rename_i e0 fs1 hg
+    simp only [] at h
+    split at h
+    · cases h
+    · rename_i fd hfd
+      obtain ⟨_, hv, hfs⟩ := ite_error_ok h
+      simp only [Prod.mk.injEq] at hv
+      obtain ⟨hfile, he⟩ := hv
+      subst he hfs hfile
+      obtain ⟨f, hf, hb⟩ := get_refreshes fs u id e0 fs1 hg
+      have hidx : (outputFile fs1 u e0.out).2.get (fileName id keyA) = some f := by
+        rw [outputFile]; simp only []; rw [get_used_ne _ _ _ _ (fileName_a_ne_d _ _)]; exact hf
+      refine ⟨?_, by rw [hidx]; rfl, outputFile_survives fs1 u now hn0 e0.out hwithin, by rw [hfd]; rfl⟩
+      rw [hidx]
+      exact trim_keeps_recent _ now hn0 _ f (fileName_ne_trimTxt _ _) hidx (by omega)
+
+example : ∃ d e fs', getBytes toyH exFS (10 * day) id1 = (.ok (d, e), fs') ∧
+    (trim fs' (15 * day)).get (fileName id1 keyA) = fs'.get (fileName id1 keyA) := by
+  obtain ⟨t, ht⟩ := exFS_stored.getBytes (10 * day)
+  cases h : getBytes toyH exFS (10 * day) id1 with
+  | mk r fs' =>
+    rw [h] at ht; simp only at ht; subst ht
+    exact ⟨_, _, fs', rfl, (getBytes_survives toyH exFS (10 * day) (15 * day) (by decide) id1 _ _ fs' h (by decide)).1⟩
+
+example : ∃ file e fs', getFile exFS (10 * day) id1 = (.ok (file, e), fs') ∧ (trim fs' (15 * day)).get file = fs'.get file := by
+  obtain ⟨t, ht⟩ := exFS_stored.getFile (10 * day)
+  cases h : getFile exFS (10 * day) id1 with
+  | mk r fs' =>
+    rw [h] at ht; simp only at ht; subst ht
+    exact ⟨_, _, fs', rfl, (getFile_survives exFS (10 * day) (15 * day) (by decide) id1 _ _ fs' h (by decide)).2.2.1⟩
+
+/-! ### storing an entry protects it -/
+
+/-- the two files of the entry `id ↦ data`, as a fault-free `Put` at time `u` leaves them, are both present and both
+survive a Trim at `now`. -/
+def SurvivesTrim (H : Bytes → Hash) (fs : FS) (u now : Int) (id : Hash) (data : Bytes) : Prop :=
+  ∃ fi fd,
+    (put H fs u id data).2.get (fileName id keyA) = some fi ∧
+    (trim (put H fs u id data).2 now).get (fileName id keyA) = some fi ∧
+    (put H fs u id data).2.get (fileName (H data) keyD) = some fd ∧
+    (trim (put H fs u id data).2 now).get (fileName (H data) keyD) = some fd
+
+/-- Trim never removes an entry that was stored within the last five days: after `Put(id, data)` at time `u`
+(into any cache directory, damaged or not) the index entry *and* the output file survive every Trim at
+`now ≤ u + 5 d` — also when the output file was already there and is merely re-used, because the re-use branch
+of `copyFile` refreshes its mtime (regenerated fact `copyReuseRefresh ≠ 0`; without it this theorem fails,
+cf. the history  Put(id1,d) · 6 days · Put(id2,d) · Trim · GetBytes(id2)). -/
+theorem put_survives (H : Bytes → Hash) (fs : FS) (u now : Int) (id : Hash) (data : Bytes)
+    (hn0 : 0 ≤ now) (hwithin : now - u ≤ 5 * day) : SurvivesTrim H fs u now id data := by
+  have hfix : Gen.Cache.copyReuseRefresh = 1 ∨ Gen.Cache.copyReuseRefresh = 2 := by decide
+  have hne : fileName (H data) keyD ≠ fileName id keyA := fun h => fileName_a_ne_d _ _ h.symm
+  obtain ⟨hi1, hi2⟩ := putIndexEntry_spec (copyFile H fs u data (H data) data.length).2 u id (H data) data.length
+  -- the data file after copyFile: present, with an mtime less than an hour before `u`
+  have hdata : ∃ fd, (copyFile H fs u data (H data) data.length).2.get (fileName (H data) keyD) = some fd ∧ u - fd.mtime < hour := by
+    by_cases hr : Reused H fs data
+    · rw [copyFile_reused H fs u data hr]
+      obtain ⟨f, hf, _, _⟩ := hr
+      unfold refreshReused
+      rcases hfix with h1 | h2
+      · simp only [h1, if_true]
+        cases hg : (used fs u (fileName (H data) keyD)).get (fileName (H data) keyD) with
+        | none => rw [get_used_self, hf] at hg; simp at hg
+        | some fd => exact ⟨fd, rfl, used_bound _ _ _ _ hg⟩
+      · simp only [h2, show ¬ (2 : Nat) = 1 by decide, if_false, if_true, get_chtimes, hf, Option.map_some]
+        exact ⟨_, rfl, by simp [hour, second]⟩
+    · obtain ⟨fd, hfd, hm⟩ := copyFile_fresh H fs u data hr
+      exact ⟨fd, hfd, by rw [hm]; simp [hour, second]⟩
+  obtain ⟨fd, hfd, hbd⟩ := hdata
+  rw [SurvivesTrim, put_snd]
+  have hfd' : (putIndexEntry (copyFile H fs u data (H data) data.length).2 u id (H data) data.length).get (fileName (H data) keyD) = some fd := by
+    rw [hi2 _ hne]; exact hfd
+  refine ⟨_, fd, hi1, ?_, hfd', ?_⟩
+  · have hh : 0 < hour := by decide
+    exact trim_keeps_recent _ now hn0 _ _ (fileName_ne_trimTxt _ _) hi1 (by simp only; omega)
+  · exact trim_keeps_recent _ now hn0 _ _ (fileName_ne_trimTxt _ _) hfd' (by omega)
+
+/-- the regression history in the model: the output `[65]` was stored long ago (mtime 0); it is stored again under
+`id1` at day 10 and a trim is due at once — both files are still there afterwards. -/
+example : SurvivesTrim toyH (FS.empty.set (fileName (toyH [65]) keyD) ⟨[65], 0⟩) (10 * day) (10 * day) id1 [65] :=
+  put_survives _ _ _ _ _ _ (by decide) (by decide)
+
+/-- When the trim is due, every cache entry file unused for longer than five days plus one hour is removed. -/
+theorem trim_removes_stale (fs : FS) (now : Int) (hn0 : 0 ≤ now) (hdue : trimNotDue fs now = false)
+    (p : Bytes) (f : File) (hentry : isEntryPath p = true) (hf : fs.get p = some f)
+    (hstale : f.mtime < now - 5 * day - hour) : (trim fs now).get p = none := by
+  have hp : p ≠ trimTxt := by intro h; subst h; revert hentry; decide
+  rw [trim_of_due fs now hn0 hdue, dueResult, FS.get_set_ne _ _ _ _ hp, trimSweep_get]
+  exact keepUnless_pos ⟨(sweepCandidate_iff p).mpr hentry, by rw [hf, stale_some_iff]; exact hstale⟩ _
+
+example : (trim (FS.empty.set [97, 98, 47, 120, 45, 97] ⟨[1], day⟩) (10 * day)).get [97, 98, 47, 120, 45, 97] = none :=
+  trim_removes_stale _ _ (by decide) (by simp [trimNotDue, lastTrim?, FS.get_set, Gen.Cache.trimFile]) _ _ (by decide)
+    (FS.get_set_self _ _ _) (by decide)
+
+/-- Files that are not cache entries — anything but a name ending in `-a` / `-d` directly inside a two-hex-digit
+subdirectory: README, fuzz data, temporary and foreign files, nested directories — are never touched
+(`trim.txt` aside, which a due trim rewrites). -/
+theorem trim_frame (fs : FS) (now : Int) (hn0 : 0 ≤ now) (p : Bytes) (hnot : isEntryPath p = false) (hp : p ≠ trimTxt) :
+    (trim fs now).get p = fs.get p := by
+  cases hd : trimNotDue fs now with
+  | true => simp [trim, hd]
+  | false =>
+    rw [trim_of_due fs now hn0 hd, dueResult, FS.get_set_ne _ _ _ _ hp, trimSweep_get, keepUnless_neg]
+    rintro ⟨hc, _⟩
+    rw [(sweepCandidate_iff p).mp hc] at hnot
+    cases hnot
+
+/-- README, `fuzz/ab/x-a`, `ab/x-a.tmp`, `AB/x-a`, `ab/s/x-a`, `x-a` are not entries; `ab/x-a` and `0f` / `-d` are. -/
+example : isEntryPath [82, 69, 65, 68, 77, 69] = false ∧
+    isEntryPath [102, 117, 122, 122, 47, 97, 98, 47, 120, 45, 97] = false ∧
+    isEntryPath [97, 98, 47, 120, 45, 97, 46, 116, 109, 112] = false ∧
+    isEntryPath [65, 66, 47, 120, 45, 97] = false ∧
+    isEntryPath [97, 98, 47, 115, 47, 120, 45, 97] = false ∧
+    isEntryPath [120, 45, 97] = false ∧
+    isEntryPath [97, 98, 47, 120, 45, 97] = true ∧
+    isEntryPath [48, 102, 47, 45, 100] = true := by decide
+
+example : (trim (FS.empty.set [82, 69, 65, 68, 77, 69] ⟨[1], 0⟩) (10 * day)).get [82, 69, 65, 68, 77, 69] = some ⟨[1], 0⟩ := by
+  rw [trim_frame _ _ (by decide) _ (by decide) (by decide), FS.get_set_self]
 
 end GIV.C13
